@@ -91,7 +91,12 @@ Definition newest_step (allowed : version -> bool) (v : version) (ret : version)
 Definition newest_in_set' (l : list version) (allowed : version -> bool) : version :=
   fold_left (fun ret v => newest_step allowed v ret) (rev l) unspecified.
 
-(* builder.go extractVersionListFromResponse + NewestInSet *)
+(* builder.go newestAllowedVersion: the same scan, but "none yet" is not a version *)
+Definition allowed_step (allowed : version -> bool) (v : version) (ret : option version) : option version :=
+  if (match ret with None => true | Some r => vgt v r end) && allowed v then Some v else ret.
+Definition newest_allowed (l : list version) (allowed : version -> bool) : option version :=
+  fold_left (fun ret v => allowed_step allowed v ret) (rev l) None.
+
+(* builder.go extractVersionListFromResponse + newestAllowedVersion *)
 Definition select_version (offered : list version) (allowed : version -> bool) : option version :=
-  let v := newest_in_set' (sort_versions offered) allowed in
-  if version_eqb v unspecified then None else Some v.
+  newest_allowed (sort_versions offered) allowed.
